@@ -829,9 +829,12 @@ def expected_state_after_load(c, r, s, sig):
     st, new = s['state'], r.state.VALUE
     ob(c, new not in IN_PROGRESS, 'no_in_progress_after_load', sig=sig, info=new.name)
     if st == S.INITIALIZING:
+        c.reach('was_initializing')
         ob(c, new == S.QUEUED, 'initializing_requeued', sig=sig, info=new.name)
     elif st in (S.DOWNLOADING, S.UPLOADING):
         done = veq(s['filesize'], s['bytes_transfered'])
+        if new in (S.COMPLETE, S.INCOMPLETE):
+            c.reach('repaired_' + new.name)
         if new == S.COMPLETE:
             ob(c, done, 'transferring_complete_iff_all_bytes', sig=sig + ['COMPLETE'],
                     info='COMPLETE although not all bytes had arrived')
@@ -897,10 +900,18 @@ def check_loaded(c, loop, M, snaps, sig, full=True):
         if not ok:
             continue
         new = S.PAUSED if old == S.QUEUED else S.QUEUED
+        c.reach('state_changed')
         ob(c, r.state.VALUE == new and len(M.notified) == 1 and M.notified[0][0] is r
                 and M.notified[0][1:] == (old, new), 'state_change_reported', sig=tsig,
                 info=f'{old.name}->{r.state.VALUE.name}, notifications={[(o.name, n.name) for _, o, n in M.notified]}')
     return pairs
+
+
+async def _stop_and_store(m):
+    import asyncio
+    cancelled = await m.stop()
+    await asyncio.gather(*cancelled, return_exceptions=True)
+    await m.store_data()
 
 
 def restart(c, env, loop, ts, sig, legacy=False, generations=2):
@@ -913,7 +924,8 @@ def restart(c, env, loop, ts, sig, legacy=False, generations=2):
         A = mk_manager(env)
         for t in ts:
             loop.run_until_complete(A.add(t))
-        ok, _ = guarded(c, 'write_no_exception', sig, loop.run_until_complete, A.store_data())
+        # the process ends the way SoulSeekClient.stop() ends it: services stopped, then data stored
+        ok, _ = guarded(c, 'write_no_exception', sig, loop.run_until_complete, _stop_and_store(A))
         if not ok:
             return
     M = None
@@ -927,7 +939,7 @@ def restart(c, env, loop, ts, sig, legacy=False, generations=2):
         check_loaded(c, loop, M, snaps, gsig, full=(g == 0))
         if g + 1 < generations:
             snaps = [snap(t) for t in M.transfers]
-            ok, _ = guarded(c, 'write_no_exception', gsig, loop.run_until_complete, M.store_data())
+            ok, _ = guarded(c, 'write_no_exception', gsig, loop.run_until_complete, _stop_and_store(M))
             if not ok:
                 return
     return M
@@ -1270,9 +1282,14 @@ def jobs(tier):
     for st in STATES:
         for d in 'DU':
             for legacy in (False, True):
+                req = ['loaded', 'state_changed']
+                if st == 'INITIALIZING':
+                    req.append('was_initializing')
+                if st in ('DOWNLOADING', 'UPLOADING'):
+                    req += ['repaired_COMPLETE', 'repaired_INCOMPLETE']
                 out.append({'harness': 'single', 'fn': h_single,
                             'params': {'state': st, 'd': d, 'legacy': legacy, 'masks': 'control' if q else 'all'},
-                            'requires': ['loaded']})
+                            'requires': req})
     out.append({'harness': 'restart', 'fn': h_restart, 'params': {'specs': []}, 'requires': ['loaded']})
     combos = [(s, d) for s in STATES for d in 'DU']
     rep2 = [('QUEUED', 'D'), ('INITIALIZING', 'U'), ('DOWNLOADING', 'D'), ('UPLOADING', 'U'), ('ABORTED', 'D'), ('COMPLETE', 'U')]
